@@ -62,7 +62,7 @@ def hex_scale(prop, prune):
             if t.db.plain() != bodies:
                 bad("garbage_left" if set(t.db.plain()) - set(bodies) else "live_node_missing", "database is not exactly the live node set (scale probe)",
                     field="db", size=len(m))
-            rc = {k: v for k, v in t._ref_count.items() if v}
+            rc = {k: v for k, v in t.ref_count.items() if v}
             if rc != counts:
                 bad("ref_count_wrong", "reference counts differ from the number of references (scale probe)", field="ref_count", size=len(m))
         if prop == "C01" and full:
@@ -115,7 +115,7 @@ def hex_scale(prop, prune):
             observe(i % 40 == 39)
         observe(True)
         # 3. a big batch that is cancelled, then the same batch committed (more than 1024 buffered entries)
-        snap_before = (t.root_hash, t.db.plain(), None if not prune else {k: v for k, v in t._ref_count.items() if v})
+        snap_before = (t.root_hash, t.db.plain(), None if not prune else {k: v for k, v in t.ref_count.items() if v})
         for commit in (False, True):
             m2 = dict(m)
             try:
@@ -130,7 +130,7 @@ def hex_scale(prop, prune):
                     if not commit:
                         raise BatchCancel()
             except BatchCancel:
-                now = (t.root_hash, t.db.plain(), None if not prune else {k: v for k, v in t._ref_count.items() if v})
+                now = (t.root_hash, t.db.plain(), None if not prune else {k: v for k, v in t.ref_count.items() if v})
                 evals += 1
                 if prop == "C05" and now != snap_before:
                     bad("abort_restores", "a big aborted batch changed root, database or reference counts (scale probe)",
